@@ -144,7 +144,9 @@ impl Decodable for Comparison {
             }
             2 => {
                 let indices_len = reader.read_u32().await? as usize;
-                let mut indices = Vec::with_capacity(indices_len);
+                // Length comes from untrusted input so do not
+                // allocate before the indices have been read
+                let mut indices = Vec::new();
                 for _ in 0..indices_len {
                     indices.push(reader.read_u64().await? as usize);
                 }
